@@ -4,6 +4,10 @@ Request:  (edit SRC UNIT (EDIT ...) TREE RTAB)
   SRC    = (text "fortran source") | (file "path relative to the repo")
   UNIT   = "name of the routine whose body is edited"
   EDIT   = (tr RS ((IDX HANDLE) ...))      Transformer(mapper, rebuild_scopes=RS).visit(body); IDX = pre-order index in the current body
+           (tri RS ((IDX HANDLE) ...))     the same with inplace=True (value-level the same result; moved nodes are leaves)
+           (subi RS "var" "new")           SubstituteExpressions(..., inplace=True)
+           (ntr RS ((IDX HANDLE) ...))     NestedTransformer           } outside the model: impl and driver answer (ok oracle-only),
+           (upd RS ((IDX HANDLE) ...))     parent._update + invalidate } the direct oracle does the checking
            (sub RS "var" "new")            SubstituteExpressions({var: new}, rebuild_scopes=RS).visit(body)  (scalar rename, at most once)
   HANDLE = none | (node H) | (tuple H ...);  H = (ref IDX) an existing node (moved/copied) | (fresh J) the J-th fresh statement
   TREE   = export of the routine body as the frontend produced it:
@@ -24,7 +28,7 @@ from pydantic import ValidationError
 from loki import Sourcefile
 from loki.frontend import FP
 from loki.frontend.source import SourceStatus
-from loki.ir import nodes as ir, Transformer, SubstituteExpressions, FindVariables
+from loki.ir import nodes as ir, Transformer, NestedTransformer, SubstituteExpressions, FindVariables
 from loki.ir.nodes import Node, ScopedNode
 from loki.backend.fgen import FortranCodegen, fgen
 from loki.backend.fgencon import FortranCodegenConservative
@@ -273,26 +277,72 @@ def resolve(world, body, h):
     raise ValueError(h)
 
 
+ORACLE_ONLY_OPS = ('ntr', 'upd')
+
+
+def _mapper(world, body, pairs):
+    nodes = list(preorder(body))
+    mapper = {}
+    for idx, h in pairs:
+        k = nodes[int(str(idx))]
+        if not isinstance(h, list):
+            mapper[k] = None
+        elif str(h[0]) == 'node':
+            mapper[k] = resolve(world, body, h[1])
+        else:
+            mapper[k] = tuple(resolve(world, body, x) for x in h[1:])
+    return mapper
+
+
+def _path_to(body, target):
+    """[(ancestor, field name)] from the root down to the parent of `target` (object identity)"""
+    def rec(o, trail):
+        for f in ('body', 'else_body'):
+            if f in o._traversable:
+                for c in getattr(o, f):
+                    if c is target:
+                        return trail + [(o, f)]
+                    r = rec(c, trail + [(o, f)])
+                    if r:
+                        return r
+        return None
+    return rec(body, [])
+
+
 def apply_edit(world, body, ed):
+    """tr / tri: Transformer (rebuild / inplace=True); sub / subi: SubstituteExpressions (rebuild / inplace=True);
+    ntr: NestedTransformer; upd: the node's parent is `_update`d directly and every ancestor's source invalidated by hand
+    (the way `loki/lint/utils.py` does it)"""
     op = str(ed[0])
     rs = str(ed[1]).lower() == 'true'
-    if op == 'tr':
-        nodes = list(preorder(body))
-        mapper = {}
-        for idx, h in ed[2]:
-            k = nodes[int(str(idx))]
-            if not isinstance(h, list):
-                mapper[k] = None
-            elif str(h[0]) == 'node':
-                mapper[k] = resolve(world, body, h[1])
-            else:
-                mapper[k] = tuple(resolve(world, body, x) for x in h[1:])
-        return Transformer(mapper, rebuild_scopes=rs).visit(body)
-    if op == 'sub':
+    if op in ('tr', 'tri'):
+        res = Transformer(_mapper(world, body, ed[2]), rebuild_scopes=rs, inplace=(op == 'tri')).visit(body)
+    elif op == 'ntr':
+        res = NestedTransformer(_mapper(world, body, ed[2]), rebuild_scopes=rs).visit(body)
+    elif op in ('sub', 'subi'):
         old, new = ed[2], ed[3]
         vmap = {v: v.clone(name=new) for v in FindVariables(unique=False).visit(body) if v.name.lower() == old.lower()}
-        return SubstituteExpressions(vmap, rebuild_scopes=rs).visit(body)
-    raise ValueError(op)
+        res = SubstituteExpressions(vmap, rebuild_scopes=rs, inplace=(op == 'subi')).visit(body)
+    elif op == 'upd':
+        nodes = list(preorder(body))
+        for idx, h in ed[2]:
+            target = nodes[int(str(idx))]
+            path = _path_to(body, target)
+            if not path:
+                continue
+            parent, field = path[-1]
+            new = () if not isinstance(h, list) else (resolve(world, body, h[1]),)
+            kids = tuple(x for c in getattr(parent, field) for x in (new if c is target else (c,)))
+            parent._update(**{field: kids})
+            for anc, _ in path:
+                if anc.source:
+                    anc.source.invalidate(children=True)
+        res = body
+    else:
+        raise ValueError(op)
+    if op in ('tri', 'subi', 'upd', 'ntr'):
+        _ckeys.clear()          # objects were changed in place: cached payload keys are stale
+    return res
 
 
 def run_edits(world, edits):
@@ -320,7 +370,7 @@ _derived = {}
 
 
 def derived(src, unit, edits):
-    subs = [e for e in edits if str(e[0]) == 'sub']
+    subs = [e for e in edits if str(e[0]) in ('sub', 'subi')]
     key = dumps([src, unit, [[s[1], s[2], s[3]] for s in subs]])
     if key not in _derived:
         if len(_derived) > 64:
@@ -335,7 +385,7 @@ def _derived_uncached(src, unit, edits):
         w = world_for(src, unit)
         tree = w.export(w.body)
         fresh = [w.export(f) for f in w.fresh]
-        subs = [e for e in edits if str(e[0]) == 'sub']
+        subs = [e for e in edits if str(e[0]) in ('sub', 'subi')]
         if len(subs) > 1:
             raise Unsupported('more than one substitution')
         if subs and str(subs[0][1]).lower() == 'true' and any(isinstance(n, ScopedNode) for n in preorder(w.body)):
@@ -400,6 +450,10 @@ def _run_real(req):
         nb = run_edits(w, edits)
     except ValidationError:
         return ('error', 'validation')
+    except Exception:       # pylint: disable=broad-except
+        if oracle_only(edits):
+            return ('error', 'edit-failed')     # e.g. NestedTransformer on a one-to-many value (C14's finding)
+        raise
     try:
         out = cons(nb)
     except tuple(EXC) as e:
@@ -407,7 +461,13 @@ def _run_real(req):
     return ('ok', w, nb, out)
 
 
+def oracle_only(edits):
+    return any(str(e[0]) in ORACLE_ONLY_OPS for e in edits)
+
+
 def impl_edit(req):
+    if oracle_only(split_req(req)[2]):
+        return [A('ok'), A('oracle-only')]      # modification paths outside the model: direct oracle only
     r = run_real(req)
     if r[0] == 'error':
         return [A('error'), A(r[1])]
@@ -653,7 +713,11 @@ class G:
                 el = self.case('else')
                 if self.spice and self.p(0.1):
                     el += '  ! otherwise'
-                out += [f'{ind}{el}'] + self.block(ind + step, loopvars, budget - 1, depth + 1)
+                out += [f'{ind}{el}']
+                if n_ei == 0 and self.p(0.4):
+                    # lines that *start* with ELSE inside the else branch: a nested IF / ELSE IF (written with a blank)
+                    out += self.nested_elseif(ind + step, loopvars)
+                out += self.block(ind + step, loopvars, budget - 1, depth + 1)
             if self.spice and self.p(0.1):
                 endif += '  ! done'
             return out + [f'{ind}{endif}']
@@ -663,9 +727,37 @@ class G:
         body = self.block(ind + step, loopvars, budget - 1, depth + 1)
         return [f'{ind}associate (q => {self.rng.choice(self.ARRS)}(1))'] + body + [f'{ind}end associate']
 
-    def routine(self, size):
+    def nested_elseif(self, ind, loopvars):
+        step = '  '
+        kw, then = self.case('if'), self.case('then')
+        out = [f'{ind}{kw} ({self.cmp(loopvars)}) {then}'] + self.assign(ind + step, loopvars)
+        for _ in range(self.rng.randint(1, 2)):
+            out += [f'{ind}{self.case("else if")} ({self.cmp(loopvars)}) {then}'] + self.assign(ind + step, loopvars)
+        if self.p(0.4):
+            out += [f'{ind}{self.case("else")}'] + self.assign(ind + step, loopvars)
+        return out + [f'{ind}{self.rng.choice(["end if", "endif", "END IF"])}']
+
+    def else_nest_body(self, ind):
+        """a block IF with a plain ELSE whose else branch holds lines that *start* with ELSE (nested ELSE IF, possibly inside a loop)"""
+        step = '  '
+        kw, then = self.case('if'), self.case('then')
+        out = self.simple(ind, [])
+        out += [f'{ind}{kw} ({self.cmp([])}) {then}'] + self.block(ind + step, [], 2, 2)
+        out += [f'{ind}{self.case("else")}']
+        if self.p(0.5):
+            out += self.simple(ind + step, [])
+        if self.p(0.35):
+            out += [f'{ind}{step}do i = 1, n'] + self.nested_elseif(ind + step + step, ['i']) + [f'{ind}{step}end do']
+        else:
+            out += self.nested_elseif(ind + step, [])
+        if self.p(0.5):
+            out += self.simple(ind + step, [])
+        out += [f'{ind}{self.rng.choice(["end if", "endif", "END IF"])}']
+        return out + self.simple(ind, [])
+
+    def routine(self, size, body=None):
         ind = self.rng.choice(['  ', '  ', '', '    '])
-        body = self.block(ind, [], size, 0)
+        body = body(ind) if body else self.block(ind, [], size, 0)
         while len(body) < 2:
             body += self.simple(ind, [])
         head = ['subroutine gen(n, a, b, c, x, y, z)', f'{ind}integer, intent(in) :: n',
@@ -734,6 +826,9 @@ def classify(tree):
             first = strip_comment(t_text(n)[0]).rstrip() if t_text(n) else ''
             if first.endswith('&'):
                 out.add('multiline-header-truncated')
+            if k == 'cond' and not t_elseif(n) and t_els(n) and \
+                    not any(l.upper().split('!', maxsplit=1)[0].strip() == 'ELSE' for l in t_text(n)):
+                out.add('named-else-not-found')
         if parent is not None and k == 'comment' and t_status(n) == 'valid':
             sib = list(t_body(parent)) + list(t_els(parent))
             i = [j for j, c in enumerate(sib) if c is n][0]
@@ -771,6 +866,9 @@ def gen_edits(rng, tree, allow_sub=True):
         return set(range(i, i + len(list(t_pre(nodes[i])))))
 
     nf = 8
+    # how the modification is performed: rebuilding Transformer, inplace=True, NestedTransformer, direct _update + invalidate
+    mode = rng.choice(['tr'] * 11 + ['tri'] * 5 + ['ntr'] * 2 + ['upd'] * 2)
+    is_leaf = lambda i: not t_body(nodes[i]) and not t_els(nodes[i])
     k = rng.choice([1, 1, 1, 2, 2, 3])
     keys = rng.sample(cand, min(k, len(cand)))
     pairs = []
@@ -780,13 +878,23 @@ def gen_edits(rng, tree, allow_sub=True):
     for kx in keys:
         r = rng.random()
         free = [i for i in cand if i not in keyset and not (subtree_idx(i) & keyset) and not (subtree_idx(i) & subtree_idx(kx))]
+        if mode != 'tr':
+            # objects are changed in place: a moved inner node would share its (re-flagged) children with its old position
+            free = [i for i in free if is_leaf(i)]
+        if mode == 'upd' and r >= 0.65:
+            r = rng.random() * 0.65         # no one-to-many values on this path
+        if mode == 'ntr':
+            # NestedTransformer builds the replacement from the key (C14: nested-replacement-built-from-key): with an existing
+            # node as value the result carries that node's VALID source and the key's expressions; only removals and fresh
+            # (source-less) values are generated until that class is listed for C03
+            r = rng.random() * 0.45
         if r < 0.25:
             h = A('none')
         elif r < 0.45:
             h = [A('node'), [A('fresh'), rng.randrange(nf)]]
         elif r < 0.65 and free:
             h = [A('node'), [A('ref'), rng.choice(free)]]
-        elif r < 0.75 and len(keys) > 1:
+        elif r < 0.75 and len(keys) > 1 and (mode == 'tr' or all(is_leaf(x) for x in keys)):
             other = rng.choice([x for x in keys if x != kx])
             h = [A('node'), [A('ref'), other]]          # swap / duplicate with another key
         else:
@@ -804,17 +912,17 @@ def gen_edits(rng, tree, allow_sub=True):
                     items.append([A('fresh'), rng.randrange(nf)])
             h = [A('tuple')] + items
         pairs.append([kx, h])
-    edits.append([A('tr'), rng.random() < 0.3, pairs])
+    edits.append([A(mode), rng.random() < 0.3, pairs])
     r = rng.random()
     if allow_sub and r < 0.35:
         var = rng.choice(['x', 'y', 'z', 'i', 'a', 'b'])
-        ed = [A('sub'), rng.random() < 0.3, var, var + '_r']
+        ed = [A('subi' if rng.random() < 0.35 else 'sub'), rng.random() < 0.3, var, var + '_r']
         if rng.random() < 0.5:
             edits.insert(0, ed)
         else:
             edits.append(ed)
     elif r < 0.5:
-        edits.append([A('tr'), False, []])
+        edits.append([A('tri' if rng.random() < 0.3 else 'tr'), False, []])
     return edits
 
 
@@ -867,7 +975,7 @@ def _tables():
 
 # ---------------------------------------------------------------- the property
 
-PRIORITY = ['multiline-header-truncated', 'inline-comment-repeated']
+PRIORITY = ['named-else-not-found', 'multiline-header-truncated', 'inline-comment-repeated']
 SEMANTIC = PRIORITY[:-1]
 CPPMACRO = re.compile(r'__(LINE|FILE|DATE|TIME|VERSION__)')
 
@@ -880,7 +988,7 @@ def pick(classes, allowed):
 
 
 def identity_only(edits):
-    return all(str(e[0]) == 'tr' and len(e[2]) == 0 for e in edits)
+    return all(str(e[0]) in ('tr', 'tri') and len(e[2]) == 0 for e in edits)
 
 
 class C03(Prop):
@@ -919,15 +1027,17 @@ class C03(Prop):
         return _tables()
 
     def classes(self):
-        return PRIORITY + ['scoped-node-source-stale', 'section-source-stripped']
+        return PRIORITY + ['scoped-node-source-stale', 'section-source-stripped', 'nested-replacement-keeps-source']
 
     # ------------------------------------------------------------ generation
     def gen(self, rng, tier):
         n_gen = {'quick': 12, 'thorough': 90, 'search': 40}[tier]
         n_files = {'quick': 3, 'thorough': 10 ** 6, 'search': 40}[tier]
-        for c in range(n_gen):
-            spice = c % 2 == 1
-            text = G(rng, spice).routine(rng.randint(3, 16))
+        n_nest = {'quick': 3, 'thorough': 40, 'search': 20}[tier]
+        for c in range(n_gen + n_nest):
+            spice = c % 2 == 1 and c < n_gen
+            g = G(rng, spice)
+            text = g.routine(rng.randint(3, 16), body=g.else_nest_body if c >= n_gen else None)
             src = [A('text'), text]
             try:
                 w = World(src, 'gen')
@@ -938,7 +1048,7 @@ class C03(Prop):
             tree = w.export(w.body)
             for _ in range(2):
                 edits = gen_edits(rng, tree) if rng.random() < 0.9 else []
-                yield Case(make_req(src, 'gen', edits), stream='gen-spicy' if spice else 'gen-plain',
+                yield Case(make_req(src, 'gen', edits), stream='gen-else-nest' if c >= n_gen else ('gen-spicy' if spice else 'gen-plain'),
                            nontrivial=bool(edits))
         files = repo_fortran_files()
         rng.shuffle(files)
@@ -964,7 +1074,7 @@ class C03(Prop):
         for i in range(len(edits)):
             yield make_req(src, unit, edits[:i] + edits[i + 1:])
         for i, e in enumerate(edits):
-            if str(e[0]) == 'tr':
+            if str(e[0]) in ('tr', 'tri', 'ntr', 'upd'):
                 for j in range(len(e[2])):
                     yield make_req(src, unit, edits[:i] + [[e[0], e[1], e[2][:j] + e[2][j + 1:]]] + edits[i + 1:])
 
@@ -997,8 +1107,15 @@ class C03(Prop):
         w, nb = res[-2], res[-1] if res[0] == 'error' else res[2]
         if res[0] == 'ok':
             w, nb, out = res[1], res[2], res[3]
-        rtree = w.export(nb)
-        classes = classify(rtree)
+        try:
+            rtree = w.export(nb)
+            classes = classify(rtree)
+        except Unsupported:
+            if not oracle_only(edits):
+                raise
+            rtree, classes = None, set()        # NestedTransformer builds nodes the payload table does not know
+        nested_ref = any(str(e[0]) == 'ntr' and any(isinstance(h, list) and str(h[0]) == 'node' and str(h[1][0]) == 'ref'
+                                                    for _, h in e[2]) for e in edits)
         if res[0] == 'error':
             fails.append(Failure(f'the conservative backend raises {res[1]} on the edited tree', pick(classes, SEMANTIC)))
             return fails
@@ -1007,7 +1124,7 @@ class C03(Prop):
             d = first_diff(logical_lines(out or ''), logical_lines(fgen(nb) or ''))
             if d:
                 fails.append(Failure('after the edit the conservative output is not the program the regular backend prints: ' + d,
-                                     pick(classes, SEMANTIC)))
+                                     'nested-replacement-keeps-source' if nested_ref else pick(classes, SEMANTIC)))
         # a node still flagged VALID carries the text of its current subtree
         if not CPPMACRO.search(text):
             for n in preorder(nb):
@@ -1024,12 +1141,14 @@ class C03(Prop):
                     cls = None
                     if k == 'scoped':
                         cls = 'scoped-node-source-stale'
+                    elif nested_ref:
+                        cls = 'nested-replacement-keeps-source'
                     fails.append(Failure(f'{type(n).__name__} at lines {n.source.lines} is flagged VALID but its text is not its '
                                          'subtree: ' + str(first_diff(logical_lines(st), ref)), cls))
                     break
         # Tiles, checked: re-flagging alone (identity transformer) must not change a single character where every node is
         # printed from its source
-        if identity_only(edits) and edits and get_unit(sf, unit).body.body:
+        if identity_only(edits) and edits and get_unit(sf, unit).body.body and rtree is not None:
             # (an inline IF is not re-assembled from its source: once re-flagged it is printed by the regular handler)
             plain = all((t_kind(n) in VERB and not t_inline(n)) or (t_kind(n) == 'lother' and self._lother_verbatim(n, w))
                         for n in t_pre(rtree))
